@@ -3,6 +3,7 @@ from mirlib import *
 from synlib import *
 from rules import csa_run
 from rules.psc import sym, strip
+from rules.shared import deref
 
 META = {
     'title': 'Names resolve lexically; undeclared names are rejected before anything runs',
@@ -522,6 +523,13 @@ def check_define_slot(ctx, rep, rule):
         n += 1
         r = simp(p.env.get('_0'))
         idx = None
+        if r and ((r[0] == 'agg' and r[2] in ('None', 'Err')) or r[0] == 'errof'):
+            # the table refuses the name (it is full): nothing may have been appended on that path
+            np_ = len([c for c in p.calls if c[1] == 'alloc::vec::Vec::<T, A>::push'])
+            rep.ob(np_ == 0, rule, dfn.path, 'slot of a new name (path %d: refused)' % n, 'a definition that is refused appends nothing (%d appends on this path)' % np_, dfn.loc(), key='refusal appends nothing')
+            continue
+        if r and r[0] == 'agg' and r[2] in ('Some', 'Ok') and r[3]:
+            r = simp(deref(p.env, r[3][0]))
         if r and r[0] == 'agg' and r[1] == 'symbols::Symbol':
             fields = [f['name'] for f in F.adt('symbols::Symbol')['variants'][0]['fields']]
             idx = r[3][fields.index('index')]
@@ -529,7 +537,7 @@ def check_define_slot(ctx, rep, rule):
         for _ in range(10):
             if v is None:
                 break
-            if v[0] == 'call' and (v[1].endswith('::unwrap') or v[1].endswith('try_into') or v[1].endswith('::try_from') or v[1].endswith('::expect') or v[1].endswith('::unwrap_or_default')
+            if v[0] == 'call' and (v[1].endswith('::unwrap') or v[1].endswith('Result::<T, E>::ok') or v[1].endswith('try_into') or v[1].endswith('::try_from') or v[1].endswith('::expect') or v[1].endswith('::unwrap_or_default')
                                    or (v[1].endswith('::from') and len(v[2]) == 1) or (v[1].startswith('compiler::') and len(v[2]) == 1)):
                 v = v[2][0]
             elif v[0] in ('okval', 'cast'):
